@@ -579,7 +579,9 @@ ParamFew(kind) ==
 PduNParts == 16
 PduGridPart(i) ==
   LET kind == KindOrder[((i - 1) % 8) + 1] IN
-  IF i <= 8 THEN {[op |-> "pdu.rt", a |-> [kind |-> kind, cfg |-> c, p |-> p, sfx |-> <<>>]] : c \in CfgAllS, p \in ParamFew(kind)}
+  IF i <= 8 THEN {[op |-> "pdu.rt", a |-> [kind |-> kind, cfg |-> c, p |-> p, sfx |-> <<>>, via |-> "setter"]] :
+                    c \in CfgFew, p \in {q \in ParamGrid(kind) : PduOk(kind, CfgOf(0, 0, 1, 1, 0, 0), q) /\ kind \in {"eof", "finished", "metadata", "nak", "filedata"}}}
+                 \cup {[op |-> "pdu.rt", a |-> [kind |-> kind, cfg |-> c, p |-> p, sfx |-> <<>>]] : c \in CfgAllS, p \in ParamFew(kind)}
   ELSE {[op |-> "pdu.rt", a |-> [kind |-> kind, cfg |-> c, p |-> p, sfx |-> <<>>]] : c \in CfgFew, p \in ParamGrid(kind)}
 
 FacNParts == 9
